@@ -768,6 +768,10 @@ def verify_contract(cdef, tier='quick', seed=0):
     n_ok_paths = 0
     for run in runs:
         path = run.path
+        lem = path.lemma_instances()
+        if lem:
+            out['lemma_instances'] = out.get('lemma_instances', 0) + len(lem)
+        hyp_ax = path.ax + lem
         if run.status == 'unsupported':
             out['undecided'].append("unsupported construct on a path: %s" % (run.exc,))
             continue
@@ -800,7 +804,7 @@ def verify_contract(cdef, tier='quick', seed=0):
                     o['detail'] = 'a clause that must be refutable was proved on every path: vacuous precondition or unsound encoding'
                 if o['status'] == 'canary-ok' or z3.is_true(cond):
                     continue
-                res, model, backend, secs = solve(path.ax + rec['pc'] + [z3.Not(cond)], min(timeout_ms, 10000))
+                res, model, backend, secs = solve(hyp_ax + rec['pc'] + [z3.Not(cond)], min(timeout_ms, 10000))
                 o['solver_s'] += secs
                 out['solver_s'] += secs
                 o['backends'][backend] = o['backends'].get(backend, 0) + 1
@@ -811,7 +815,7 @@ def verify_contract(cdef, tier='quick', seed=0):
             if z3.is_true(cond):
                 o['backends']['simplifier'] = o['backends'].get('simplifier', 0) + 1
                 continue
-            res, model, backend, secs = solve_split(path.ax + rec['pc'], cond, timeout_ms)
+            res, model, backend, secs = solve_split(hyp_ax + rec['pc'], cond, timeout_ms)
             o['solver_s'] += secs
             out['solver_s'] += secs
             o['backends'][backend] = o['backends'].get(backend, 0) + 1
